@@ -17,6 +17,11 @@ pub(crate) mod sort_h {
 pub(crate) mod boxcar_h {
     include!(concat!(env!("NUCLEO_VERIF_DIR"), "/nucleo/boxcar_h.rs"));
 }
+#[cfg(kani)]
+#[allow(dead_code, unused_imports, unused_macros, unused_variables, unused_assignments, unexpected_cfgs)]
+pub(crate) mod proto_h {
+    include!(concat!(env!("NUCLEO_VERIF_DIR"), "/nucleo/proto_h.rs"));
+}
 #[cfg(not(kani))]
 #[allow(dead_code, unused_imports, unused_macros, unused_variables, unused_assignments, unexpected_cfgs)]
 pub(crate) mod replay {
